@@ -88,6 +88,14 @@ Section Proofs.
   Proof. intro H. unfold read_available. apply ra_loop_wake; [exact H|lia]. Qed.
 End Proofs.
 
+(* the decision at the cap: the task wakes itself, or the payload is alive and paused (the only
+   status for which need_read has registered the io waker).  A status moved from one side to the
+   other (e.g. Dropped treated like Pause) falsifies this. *)
+Lemma cap_decision_sound st : cap_self_wake st = true \/ st = Some PPause.
+Proof. destruct st as [[| |]|]; cbn; auto. Qed.
+Lemma cap_decision_exact st : cap_self_wake st = negb match st with Some PPause => true | _ => false end.
+Proof. destruct st as [[| |]|]; reflexivity. Qed.
+
 (* the growth rule always leaves at least LW bytes of room, so a socket that returns at most LW
    bytes per call is never truncated by the buffer's capacity *)
 Lemma spare_ge_LW LW HW remaining : 2 * LW <= HW -> LW <= spare_after_reserve LW HW remaining.
